@@ -147,7 +147,7 @@ class Model:
 
 @st.composite
 def wbs_spec(draw, max_tasks=8, min_tasks=0, hier_cycles=False, min_start=True, milestones=True,
-             summary_links=True, est_pool=None, names=None, palette_max=3):
+             summary_links=True, est_pool=None, names=None, palette_max=3, min_start_pool=None, min_start_rate=5):
     n = draw(st.integers(min_tasks, max_tasks))
     ids = draw(st.permutations(list(range(1, n + 1))))
     tasks = []
@@ -208,9 +208,9 @@ def wbs_spec(draw, max_tasks=8, min_tasks=0, hier_cycles=False, min_start=True, 
         spec['links'] = kept
     if min_start:
         for t in tasks:
-            if draw(st.integers(0, 5)) == 0:
-                t['min_start'] = iso(BASE + timedelta(days=draw(st.integers(-5, 20)),
-                                                      hours=draw(st.sampled_from([0, 0, 9, 17]))))
+            if draw(st.integers(0, min_start_rate)) == 0:
+                dd = draw(st.sampled_from(min_start_pool)) if min_start_pool else draw(st.integers(-5, 20))
+                t['min_start'] = iso(BASE + timedelta(days=dd, hours=draw(st.sampled_from([0, 0, 9, 17]))))
     if names is not None:
         for t in tasks:
             t['name'] = draw(names)
@@ -251,7 +251,7 @@ def calendar_spec(draw, dead=False, backward=False):
     kinds = ['default', 'weekly', 'weekly', 'weeklydict', 'direct_or_weekly', 'scaled', 'minus', 'bounded',
              'sum', 'fixed', 'div']
     if dead:
-        kinds = ['empty_direct', 'zero_weekly', 'zero_fixed', 'ended', 'late_start', 'zero_scaled']
+        kinds = ['empty_direct', 'zero_weekly', 'zero_fixed', 'ended', 'late_start', 'zero_scaled', 'scarce_direct', 'scarce_direct']
     kind = draw(st.sampled_from(kinds))
     units = draw(st.sampled_from([8, 8, 6, 1, 0.5, 2.5, 7.5, 24]))
     days = sorted(draw(st.sets(st.integers(0, 6), min_size=1)))
@@ -286,6 +286,9 @@ def calendar_spec(draw, dead=False, backward=False):
     # ---- calendars that never offer capacity where the scheduler looks (C14 only)
     if kind == 'empty_direct':
         return ['direct', {}]
+    if kind == 'scarce_direct':
+        # a few dated days only: some capacity, but possibly less than a task needs
+        return ['direct', {str(draw(st.integers(3, 25))): draw(st.sampled_from([1, 4, 8, 0.5])) for _ in range(draw(st.integers(1, 3)))}]
     if kind == 'zero_weekly':
         return ['weekly', days, 0]
     if kind == 'zero_fixed':
